@@ -238,14 +238,15 @@ impl Cutter<'_> {
         s
     }
 
-    fn cut(&mut self, lines: &[String], path: &str, depth: usize) {
+    fn cut(&mut self, lines: &[String], continues: &[bool], path: &str, depth: usize) {
         let mut out: Vec<String> = Vec::new();
         let mut i = 0;
         // A directive is a statement of its own: it cannot stand *inside* another statement (a
         // data list that goes on over several lines, a macro definition) the way pasted text can,
         // so no cut starts on a line that continues the statement above it. A cut may well *end*
         // inside such a statement: the included file then stops in the middle of it.
-        let continues = statement_continues(lines);
+        // (`continues` is computed once, on the whole program: whether a blank line at the end of
+        // a chunk stands in front of a continuation line is decided by what follows the chunk)
         while i < lines.len() {
             let remaining = lines.len() - i;
             let want = self.left > 0 && !continues[i] && depth < self.cfg.max_depth && remaining >= 1 && self.r.chance(1, (lines.len() as u64 / 3).max(2));
@@ -270,7 +271,7 @@ impl Cutter<'_> {
                 let indent = if self.r.chance(1, 2) { "    " } else { "" };
                 out.push(format!("{indent}.include \"{rel}\""));
                 let chunk: Vec<String> = lines[i..i + len].to_vec();
-                self.cut(&chunk, &child, depth + 1);
+                self.cut(&chunk, &continues[i..i + len], &child, depth + 1);
                 i += len;
             } else {
                 out.push(lines[i].clone());
@@ -354,7 +355,8 @@ pub fn statement_continues<S: AsRef<str>>(lines: &[S]) -> Vec<bool> {
 /// Cut a program (lines) into an include tree. Pasting the result reproduces the lines.
 pub fn cut(lines: &[String], cfg: &CutCfg, r: &mut Rng) -> World {
     let mut c = Cutter { r, cfg: cfg.clone(), files: BTreeMap::new(), n: 0, left: cfg.includes };
-    c.cut(lines, "base.s", 0);
+    let continues = statement_continues(lines);
+    c.cut(lines, &continues, "base.s", 0);
     let mut files = c.files;
     if cfg.crlf {
         for t in files.values_mut() {
